@@ -120,6 +120,144 @@ def judge(out, family, trace, spec, clauses, known=None, meta=None):
     return res
 
 
+# --------------------------------------------------------------------------- P2 / P3
+
+MC = SPEC / "mc"
+
+
+def p2(out, spec, cfgs, workers=10):
+    """Model checking of Tier-B models (design level).  A failing invariant of an
+    unchanged specification is a tool error, never a property violation."""
+    for cfg in cfgs:
+        st = core.tlc_mc_cached(MC / spec, MC / (cfg + ".cfg"), out.prop, workers=workers)
+        if not st["ok"]:
+            raise ToolError(f"Tier-B model {spec}/{cfg} does not satisfy its invariants (specification regression):\n" + st.get("tail", ""))
+        unused = [a for a, n in st["coverage"].items() if n == 0 and a in ("Next", "Feed", "Clean", "Finish")]
+        if unused:
+            raise ToolError(f"vacuity: action(s) {unused} of {cfg} never taken")
+        out.add("model_states", st["distinct"])
+        out.add("model_transitions", st["states"])
+        out.cov.setdefault("models", []).append({"cfg": cfg, "distinct_states": st["distinct"], "states_generated": st["states"],
+                                                 "wall_s": st["wall"], "cached": st["cached"]})
+
+
+def split_replay(trace, wd):
+    """Split a replay trace into hook lines, ops records and drift records."""
+    hook, ops = wd / (trace.stem + "_hook.ndjson"), wd / (trace.stem + "_ops.ndjson")
+    drift = {"n": 0, "stream": 0, "probes": 0, "cmps": 0, "piped": 0, "examples": []}
+    with open(trace) as f, open(hook, "w") as fh, open(ops, "w") as fo:
+        for line in f:
+            if '"ev":"drift"' in line:
+                r = json.loads(line)
+                drift["n"] += 1
+                for k in ("stream", "probes", "cmps", "piped"):
+                    if r.get(k):
+                        drift[k] += 1
+                        if len(drift["examples"]) < 3:
+                            drift["examples"].append(r)
+            elif '"ev":"ops"' in line:
+                fo.write(line)
+            else:
+                fh.write(line)
+    return hook, ops, drift
+
+
+def p3_alg(out, algs, clauses, faults, keep=None):
+    """spec -> implementation: every terminal state of the Tier-B algorithm models (TLC dump)
+    is replayed into the real code under the same fault schedule; the recorded traces are
+    validated against Tier A; differences from the model's prediction are model drift."""
+    wd = WORK / out.prop
+    wd.mkdir(parents=True, exist_ok=True)
+    for alg in algs:
+        suffix = "_dump" if faults else ("_dump0_t" if out.tier == "thorough" else "_dump0")
+        dump, st = core.tlc_dump(MC / "MCAlgs.tla", MC / f"MCAlg_{alg}{suffix}.cfg", out.prop)
+        src = dump
+        if keep:
+            src = wd / f"beh_{alg}.ndjson"
+            with open(dump) as f, open(src, "w") as g:
+                for line in f:
+                    if keep(json.loads(line)):
+                        g.write(line)
+        trace = wd / f"replay_{alg}.ndjson"
+        rc, err = core.run_sv(["replay", "alg", "--alg", alg, "--deadline", 1 if faults else 0, "--in", src, "--out", trace])
+        if rc != 0:
+            raise ToolError(f"replay of {alg} behaviours failed rc={rc}: {err[-500:]}")
+        hook, _, drift = split_replay(trace, wd)
+        if alg == "patience":
+            drift["cmps"] = 0      # unique()'s HashMap comparisons are not modelled (Patience.tla)
+        n = drift["n"]
+        res = judge(out, f"replay_{alg}", hook, "TraceHook", clauses)
+        out.add("evaluations", n)
+        out.add("traces_validated_against_impl", n)
+        out.add("replayed_model_behaviours", n)
+        d = drift["stream"] + drift["probes"] + drift["cmps"]
+        out.add("model_drift", d)
+        if d:
+            msg = (f"model drift: {alg}: {drift['stream']} stream / {drift['probes']} probe-count / {drift['cmps']} comparison-count "
+                   f"differences between the Tier-B model and the code over {n} behaviours (informational; the verdict is Tier A)")
+            print("INFO " + msg)
+            out.notes.append(msg)
+        out.cov.setdefault("dumps", []).append({"cfg": f"MCAlg_{alg}{suffix}", "behaviours": st["behaviours"], "replayed": n,
+                                                "cached": st["cached"]})
+
+
+def p3_compact(out, hook_clauses, ops_clauses, known_clause=None):
+    wd = WORK / out.prop
+    wd.mkdir(parents=True, exist_ok=True)
+    dump, st = core.tlc_dump(MC / "MCCompact.tla", MC / "MCCompactDump.cfg", out.prop)
+    trace = wd / "replay_compact.ndjson"
+    rc, err = core.run_sv(["replay", "compact", "--in", dump, "--out", trace])
+    if rc != 0:
+        raise ToolError(f"replay of Compact behaviours failed rc={rc}: {err[-500:]}")
+    hook, ops, drift = split_replay(trace, wd)
+    n = drift["n"]
+    known = []
+    if hook_clauses:
+        judge(out, "replay_compact", hook, "TraceHook", hook_clauses)
+    if ops_clauses:
+        res = core.validate("TraceOps", ops, out.prop)
+        by_case = {}
+        for c, cl, ln in res["rejects"]:
+            by_case.setdefault(c, set()).update(cl)
+        viol = []
+        for c, cl in sorted(by_case.items()):
+            rel = cl & ops_clauses
+            if known_clause and known_clause[0] in rel and known_clause[1] not in cl:
+                known.append(c)
+                rel = rel - {known_clause[0]}
+            if rel:
+                viol.append((c, sorted(rel), 0))
+        if viol:
+            paths, bc = core.write_replays(out.prop, ops, viol, dict(family="replay_compact_ops"))
+            for c in sorted(bc)[:8]:
+                out.violation(f"replayed Compact behaviour, ops case {c}: clause(s) {sorted(bc[c])}", paths.get(c, "n/a"))
+    out.add("evaluations", n)
+    out.add("traces_validated_against_impl", n)
+    out.add("replayed_model_behaviours", n)
+    d = drift["stream"] + drift["piped"]
+    out.add("model_drift", d)
+    if d:
+        msg = f"model drift: Compact: {drift['stream']} cleaned / {drift['piped']} piped op lists differ from the model over {n} behaviours"
+        print("INFO " + msg)
+        out.notes.append(msg)
+    out.cov.setdefault("dumps", []).append({"cfg": "MCCompactDump", "behaviours": st["behaviours"], "replayed": n, "cached": st["cached"]})
+    return known
+
+
+def alg_cfgs(out, algs, faults=False):
+    if faults:
+        return [f"MCAlg_{a}_faults" + ("_t" if out.tier == "thorough" else "") for a in algs] + \
+               ([f"MCAlg_{a}_faults" for a in algs] if out.tier == "thorough" else [])
+    return [f"MCAlg_{a}" + ("_t" if out.tier == "thorough" else "_q") for a in algs]
+
+
+def finish_counts(out):
+    """states/transitions of the evidence = Tier-B model exploration where there is one"""
+    if out.cov.get("model_states"):
+        out.cov["states"] = out.cov["model_states"]
+        out.cov["transitions"] = out.cov["model_transitions"]
+
+
 # --------------------------------------------------------------------------- C01
 
 C01_CLAUSES = {"script", "carried", "recon", "panic", "shift", "noreturn",
@@ -155,6 +293,9 @@ def c01(out):
     out.add("traces_validated_against_impl", n)
     out.add("states", out.cov.get("trace_states", 0))
     out.add("transitions", out.cov.get("trace_lines_validated", 0))
+    p2(out, "MCAlgs.tla", alg_cfgs(out, ["myers", "lcs", "patience"]))
+    p3_alg(out, ["myers", "lcs", "patience"], C01_CLAUSES, faults=False)
+    finish_counts(out)
 
 
 # --------------------------------------------------------------------------- family O (captured ops)
@@ -232,6 +373,11 @@ def c02(out):
               "window lookup / TextDiff, deadline none / never / every expiry index) judged by TLC with Ops!ValidOps, "
               "ApplyOk, identical-input and ratio clauses; non-trivial = both ranges non-empty, >=2 ops and the compaction "
               "stage changed the raw script; distinct by (alg, sequences, ranges, entry point, fuel)")
+    p2(out, "MCCompact.tla", ["MCCompact" + ("_t" if out.tier == "thorough" else "")])
+    # (arbitrary scripts: validity only - "identical inputs give only Equal ops" is a statement about
+    # the capture functions, not about what Compact does to an arbitrary script for equal sequences)
+    p3_compact(out, None, {"valid", "apply", "panic"})
+    finish_counts(out)
 
 
 @prop("C09")
@@ -251,6 +397,9 @@ def c09(out):
         paths, bc = core.write_replays(out.prop, trace, rej, dict(family="c10ops"))
         for c in sorted(bc)[:8]:
             out.violation(f"c10ops case {c}: arbitrary script through Compact+Replace not in normal form", paths.get(c, "n/a"))
+    p2(out, "MCCompact.tla", ["MCCompact" + ("_t" if out.tier == "thorough" else "")])
+    p3_compact(out, None, {"normal"})
+    finish_counts(out)
 
 
 @prop("C11")
@@ -269,6 +418,9 @@ def c11(out):
                          f"({len(known)} cases rejected as shipped and accepted with the swap repair on, e.g. "
                          f"alg={r['alg']} old={r['old'][r['os']:r['oe']]} new={r['new'][r['ns']:r['ne']]} ops={r['ops']})")
         out.add("known_finding_hits", len(known))
+    # model level: ExactAtEnd holds with the swap repair, "exact or a swap happened" without it
+    p2(out, "MCCompact.tla", ["MCCompact", "MCCompactRepair"] + (["MCCompact_t", "MCCompactRepair_t"] if out.tier == "thorough" else []))
+    finish_counts(out)
 
 
 @prop("C03")
@@ -289,6 +441,10 @@ def c03(out):
     out.add("evaluations", n)
     judge(out, "c01", trace, "TraceHook", {"minimal"})
     out.add("traces_validated_against_impl", n)
+    p2(out, "MCAlgs.tla", alg_cfgs(out, ["myers", "lcs"]))
+    p2(out, "MCCompact.tla", ["MCCompact"])
+    p3_alg(out, ["myers", "lcs"], {"minimal"}, faults=False)
+    finish_counts(out)
 
 
 @prop("C15")
@@ -310,6 +466,9 @@ def c15(out):
     out.add("evaluations", n)
     judge(out, "c01", trace, "TraceHook", {"anchors"})
     out.add("traces_validated_against_impl", n)
+    p2(out, "MCAlgs.tla", alg_cfgs(out, ["patience"]))
+    p3_alg(out, ["patience"], {"anchors"}, faults=False)
+    finish_counts(out)
 
 
 # --------------------------------------------------------------------------- C07 C08 C10 (fault / adapter families)
@@ -359,6 +518,9 @@ def c07(out):
                 "deadline and builder/capture plumbing vs the algorithm-level call; non-trivial = expiry actually struck on "
                 "non-empty ranges; distinct by (alg, input, ranges, stack, fuel)")
     out.level = "model_checking"
+    p2(out, "MCAlgs.tla", alg_cfgs(out, ["myers", "lcs", "patience"], faults=True))
+    p3_alg(out, ["myers", "lcs", "patience"], C07_CLAUSES - {"never_eq", "plumbing"}, faults=True, keep=lambda b: b["failed"] == -1)
+    finish_counts(out)
 
 
 C08_CLAUSES = {"after_finish", "finish_twice", "no_finish", "finish_leaked", "after_error", "ret_error",
@@ -376,6 +538,9 @@ def c08(out):
                 "calls C, then every k in 0..C is run with a hook failing at call k (also combined with expiry indices); TLC validates "
                 "finish-once-and-last, nothing-after-error and error identity on every trace; comparison records check NoFinishHook / "
                 "&mut forwarding and the default replace = delete + insert; non-trivial = a call before finish failed")
+    p2(out, "MCAlgs.tla", alg_cfgs(out, ["myers", "lcs", "patience"], faults=True))
+    p3_alg(out, ["myers", "lcs", "patience"], C08_CLAUSES, faults=True)
+    finish_counts(out)
 
 
 C10_CLAUSES = {"script", "carried", "recon", "panic", "noreturn", "after_finish", "finish_twice", "no_finish",
@@ -404,6 +569,24 @@ def c10(out):
         paths, bc = core.write_replays(out.prop, trace, rej, dict(family="c10ops"))
         for c in sorted(bc)[:8]:
             out.violation(f"c10ops case {c}: clause(s) {sorted(bc[c])}", paths.get(c, "n/a"))
+    p2(out, "MCCompact.tla", ["MCCompact"] + (["MCCompact_t", "MCCompact_t3"] if out.tier == "thorough" else []))
+    p3_compact(out, C10_CLAUSES, {"normal", "valid", "panic"})
+    # step-level conformance of the Compact model with the real clean-up (diagnostic)
+    strace = drive(out, "steps")
+    sres = core.validate("TraceSteps", strace, out.prop)
+    d = sum(1 for c, cl, ln in sres["rejects"] if "model_drift" in cl)
+    out.add("step_traces_conforming_to_model", sres["lines"] - d)
+    out.add("model_drift", d)
+    pan = [(c, ["panic"], ln) for c, cl, ln in sres["rejects"] if "panic" in cl]
+    if pan:
+        paths, bc = core.write_replays(out.prop, strace, pan, dict(family="steps"))
+        for c in sorted(bc)[:4]:
+            out.violation(f"steps case {c}: compaction panicked", paths.get(c, "n/a"))
+    if d:
+        msg = f"model drift: {d} recorded clean-up step sequences differ from the Compact model (informational)"
+        print("INFO " + msg)
+        out.notes.append(msg)
+    finish_counts(out)
 
 
 # --------------------------------------------------------------------------- call-record families
@@ -457,6 +640,9 @@ def c19(out):
     judge(out, "c01", trace, "TraceHook", {"work"})
     out.add("traces_validated_against_impl", n)
     out.add("states", out.cov.get("trace_states", 0))
+    p2(out, "MCAlgs.tla", alg_cfgs(out, ["myers", "patience"]))
+    p3_alg(out, ["myers", "patience"], {"work"}, faults=False)
+    finish_counts(out)
 
 
 @prop("C12")
@@ -671,6 +857,27 @@ def setup():
             log(f"[sany] {p.name}: {'ok' if ok else 'FAILED'}")
             if not ok:
                 log(r.stdout[-2000:])
+                bad += 1
+    if bad:
+        return 2
+    # warm the model-checking / behaviour-dump caches (they do not depend on /repo)
+    from concurrent.futures import ThreadPoolExecutor
+    jobs = [("mc", "MCAlgs.tla", f"MCAlg_{a}{sfx}") for a in ("myers", "lcs", "patience") for sfx in ("_q", "_faults")]
+    jobs += [("mc", "MCCompact.tla", "MCCompact"), ("mc", "MCCompact.tla", "MCCompactRepair")]
+    jobs += [("dump", "MCAlgs.tla", f"MCAlg_{a}{sfx}") for a in ("myers", "lcs", "patience") for sfx in ("_dump0", "_dump")]
+    jobs += [("dump", "MCCompact.tla", "MCCompactDump")]
+
+    def run(j):
+        kind, spec, cfg = j
+        if kind == "mc":
+            st = core.tlc_mc_cached(MC / spec, MC / (cfg + ".cfg"), "setup_" + cfg, workers=4)
+            return cfg, st["ok"]
+        core.tlc_dump(MC / spec, MC / (cfg + ".cfg"), "setup_" + cfg, workers=2)
+        return cfg, True
+    with ThreadPoolExecutor(max_workers=4) as ex:
+        for cfg, ok in ex.map(run, jobs):
+            log(f"[setup] {cfg}: {'ok' if ok else 'FAILED'}")
+            if not ok:
                 bad += 1
     return 2 if bad else 0
 
